@@ -106,6 +106,8 @@ pub fn export_types<'tcx>(tcx: TyCtxt<'tcx>) -> (J, J, J, J) {
                 for v in adt.variants().iter() {
                     for f in v.fields.iter() {
                         let mut fv = vec![("variant", J::s(v.name.to_string())), ("name", J::s(f.name.to_string()))];
+                        let fty = tcx.type_of(f.did).instantiate_identity().skip_norm_wip();
+                        fv.push(("ty", J::s(format!("{}", fty))));
                         if let Some(fl) = f.did.as_local() {
                             let fh = tcx.local_def_id_to_hir_id(fl);
                             fv.push(("attrs", J::Arr(attr_strings(tcx, fh))));
